@@ -39,15 +39,45 @@ def run(run, replay=None):
                     if with_dir:
                         saved = S.wait_until(lambda: os.path.exists(os.path.join(ud, "user.dic")) and
                                              "試験" in open(os.path.join(ud, "user.dic"), encoding="utf-8").read(), 4.0) is not None
+                sessions_ok = None
+                if answered:
+                    # recording sessions: conversions sent over several concurrent connections (so that every worker serves
+                    # some) and left unconfirmed get pairwise different ids, and confirming the earliest still learns its word
+                    import threading
+                    got = []
+                    lock = threading.Lock()
+
+                    def many(i):
+                        for j in range(6):
+                            r_ = srv.conv(["くるまで", "やまだ", "ほん"][(i + j) % 3], timeout=5.0)
+                            if r_[0] == "ok":
+                                with lock:
+                                    got.append((r_[1]["session_id"], S.texts(r_)))
+                    first = srv.conv("くるまで", timeout=5.0)
+                    ths = [threading.Thread(target=many, args=(i,)) for i in range(6)]
+                    for t_ in ths:
+                        t_.start()
+                    for t_ in ths:
+                        t_.join(30)
+                    ids = [x for x, _ in got] + ([first[1]["session_id"]] if first[0] == "ok" else [])
+                    sessions_ok = len(ids) == len(set(ids)) and len(ids) >= 30
+                    if first[0] == "ok" and first[1]["candidates"]:
+                        want = first[1]["candidates"][0]["candidate"]
+                        srv.rpc("UpdateFrequency", {"session_id": first[1]["session_id"], "candidate_id": "0"})
+                        dmp = srv.dump()
+                        learned = [w for _, w, n_, _ in (dmp or {"frequencies": []})["frequencies"]]
+                        # the learned word must come from the confirmed session's own candidate list
+                        if dmp is not None and not any(want.startswith(w) for w in learned):
+                            sessions_ok = False
                 o = {"workers": k, "user_dir": with_dir, "listening": listening, "answers": answered,
-                     "registration_applied": registered, "periodic_save": saved}
+                     "registration_applied": registered, "periodic_save": saved, "sessions_recorded": sessions_ok}
                 obs.append(o)
                 predicted = occupied < k
                 if predicted != answered:
                     dis.append(dict(o, model_predicts_serving=predicted))
                 if not answered:
                     fails.append(("never-answers", {"kind": "never-answers"}, o))
-                elif registered is False or saved is False:
+                elif registered is False or saved is False or sessions_ok is False:
                     fails.append(("duty-not-running", {"kind": "duty-not-running", "workers": k}, o))
             finally:
                 srv.stop()
@@ -58,6 +88,7 @@ def run(run, replay=None):
     run.cov.update({"evaluations": len(obs), "distinct_nontrivial": len(obs),
                     "rule": "one real server per TOKIO_WORKER_THREADS value (quick: 1,2,3,4,5,8,16; thorough: 1..16 with and without -u); "
                             "observed: answers a conversion within 5 s, RegisterWord becomes visible, user.dic appears after the save "
+                            "period, 37 unconfirmed conversions over 6 concurrent connections get different session ids and the earliest is still confirmable; "
                             "period; each compared with the model's prediction occupied < workers. every configuration is non-trivial",
                     "samples": obs[:3], "model_disagreements": len(dis), "oracle_failures": len(fails),
                     "workers_occupied_extracted": occupied})
